@@ -84,7 +84,7 @@ P['C09'] = dict(
   ])
 
 ALL_IR = ['place_global/transportation_1d.cpp', 'place_detailed/abacus_legalizer.cpp', 'place_detailed/tetris_legalizer.cpp']
-LEMON_ASSUME = 'lemon::NetworkSimplex modelled by its contract: run() returns OPTIMAL and potential() is an arbitrary dual-feasible integer potential of the graph the repository built'
+LEMON_ASSUME = 'lemon::NetworkSimplex modelled by its contract: run() returns OPTIMAL and potential() is an arbitrary OPTIMAL dual solution of the min-cost-flow problem the repository built (dual feasible, with a complementary primal flow satisfying conservation)'
 EIGEN_ASSUME = 'Eigen conjugate gradient modelled by its contract: returns an arbitrary vector of finite floats of the right size'
 P['C19'] = dict(
   design_ref='DESIGN.md section 3 C19',
@@ -128,13 +128,14 @@ P['C01'] = dict(
 
 P['C02'] = dict(
   design_ref='DESIGN.md section 3 C02',
-  level_text='(A) One-step induction on the real DetailedPlacement: from an ARBITRARY legal placement (symbolic segments, widths, positions; built by the real constructor) any single swap or insert accepted by canSwap/canInsert leaves a state for which check() passes and the directly stated invariant holds (inside segment, no overlap, y = row y, ignored cells untouched, widths unchanged, orientation prescribed and never INVALID) - hence every sequence of moves. (E) Circuit::placeDetailed end to end on a tiny symbolic circuit with a callback evaluating the legality predicate at every Detailed step and on return.',
+  level_text='(A) One-step induction on the real DetailedPlacement: from an ARBITRARY legal placement (symbolic segments, widths, positions; built by the real constructor) any single swap or insert accepted by canSwap/canInsert leaves a state for which check() passes and the directly stated invariant holds (inside segment, no overlap, y = row y, ignored cells untouched, widths unchanged, orientation prescribed and never INVALID) - hence every sequence of moves. (D) the shift pass runShiftsOnCells under the network-simplex contract (any optimal dual solution of the graph the repository built, characterised by dual feasibility + a complementary primal flow): ordering, spacing and row boundaries kept, cells outside the window untouched, for full and partial windows. (E, thorough) Circuit::placeDetailed end to end with a callback evaluating the legality predicate at every Detailed step and on return.',
   text=dict(bounds=dict(quick='A: 2 segments (split row or stacked, N/FS), 3 cells incl. an optionally ignored one, widths 1..6, positions symbolic, cell 0 any polarity; E: see harness list', thorough='A: 4 cells'),
             outside='more cells/segments; network simplex internals (modelled by contract); more than one pass end to end'),
   assumptions=STD_ASSUME + [BOOST_ASSUME, LEMON_ASSUME],
   harnesses=[
     dict(name='H02A', src='C02_step.cpp', covers=['constructed', 'swapped', 'inserted', 'end'], defines={'VCAP': 8, 'NCELLS': 3}, cfg=dict(fp='real'), ir_srcs=ALL_IR, native_srcs=ALL_IR, native_flags=['-llemon'],
          thorough=dict(defines={'NCELLS': 4})),
+    dict(name='H02D', src='C05_shift.cpp', covers=['placer built', 'end'], defines={'VCAP': 16, 'LEMON_POTLIM': 4096, 'LEMON_FLOWMAX': 3}, cfg=dict(fp='havoc', time_budget=100), ir_srcs=ALL_IR, native_srcs=ALL_IR, native_flags=['-llemon']),
     dict(name='H02E', src='C02_e2e.cpp', tiers=('thorough',), covers=['placeDetailed ended', 'end'],
          defines={'VCAP': 10, 'NC': 3, 'YCELLS': 2, 'TALLCHOICES': 2, 'POLCHOICES': 2, 'ORICHOICES': 1, 'NNETS': 2, 'SHIFTCELLS': 0, 'REORDERCELLS': 0}, cfg=dict(fp='havoc'), split=3,
          ir_srcs=ALL_IR, native_srcs=ALL_IR, native_flags=['-llemon'],
@@ -143,13 +144,14 @@ P['C02'] = dict(
 
 P['C05'] = dict(
   design_ref='DESIGN.md section 3 C05',
-  level_text='One-pass induction on the real DetailedPlacer: from an ARBITRARY legal placement of a tiny circuit (symbolic x positions and row width; rows N/N or N/FS; one cell optionally with SAME polarity so that its orientation and pin offsets change with the row) each pass primitive (swaps in a row, amplified swaps between rows, inserts in a row, inserts between rows) leaves a placement whose incremental value did not increase, whose REAL half-perimeter wirelength (public hpwl() with orientation-dependent pin offsets, after export) is not above the value before the pass, and which is legal. Successive callbacks and the final result of placeDetailed are compositions of such passes.',
+  level_text='One-pass induction on the real DetailedPlacer: from an ARBITRARY legal placement of a tiny circuit (symbolic x positions and row width; rows N/N or N/FS; one cell optionally with SAME polarity so that its orientation and pin offsets change with the row) each pass primitive (swaps in a row, amplified swaps between rows, inserts in a row, inserts between rows) leaves a placement whose incremental value did not increase, whose REAL half-perimeter wirelength (public hpwl() with orientation-dependent pin offsets, after export) is not above the value before the pass, and which is legal. The shift pass (H05S) is executed under the network-simplex contract (optimal dual solution = dual feasible + complementary primal flow): it never increases the wirelength and the incremental value equals the real wirelength afterwards. Successive callbacks and the final result of placeDetailed are compositions of such passes.',
   text=dict(bounds=dict(quick='3 row-high cells (widths 3,6,3) on 2 rows; x of cell 0 symbolic in [0,40] and its row enumerated, x of the others enumerated in {0,9}; row width symbolic 12..40; 1 net; polarity of cell 0 in {ANY,SAME}; 4 pass primitives', thorough='2 nets (2 and 3 pins), other cells x in {0,9,18,27}, 2 pin-offset sets'),
-            outside='shift pass (network simplex contract) and reordering pass; more cells; end-to-end composition is argued by induction, not executed'),
-  assumptions=STD_ASSUME + [BOOST_ASSUME],
+            outside='reordering pass; more cells; end-to-end composition is argued by induction, not executed'),
+  assumptions=STD_ASSUME + [BOOST_ASSUME, LEMON_ASSUME],
   harnesses=[
     dict(name='H05P', src='C05_pass.cpp', covers=['placer built', 'end'], defines={'VCAP': 10, 'NC': 3, 'POLCHOICES': 2, 'NNETS': 1}, cfg=dict(fp='havoc', time_budget=60), ir_srcs=ALL_IR, native_srcs=ALL_IR, native_flags=['-llemon'],
          thorough=dict(defines={'NNETS': 2, 'XCHOICES': 4, 'OFFCHOICES': 2}, cfg=dict(time_budget=600))),
+    dict(name='H05S', src='C05_shift.cpp', covers=['placer built', 'end'], defines={'VCAP': 16, 'LEMON_POTLIM': 4096, 'LEMON_FLOWMAX': 3}, cfg=dict(fp='havoc', time_budget=100), ir_srcs=ALL_IR, native_srcs=ALL_IR, native_flags=['-llemon']),
   ])
 
 P['C04'] = dict(
